@@ -239,9 +239,12 @@ def gen_scenarios(rng, tier):
     for p in bad:
         add("proxy_unparsable", proxy=p, via="newclient")
     # key shapes
-    for k in ["abcd", "ab", "ab..ef", "abcdefg", "k e&y=%+1234567"]:
+    for k in ["abcd", "ab", "ab..ef", "abcdefg", "k e&y=%+1234567", KEY40 + " ", "'" + KEY40 + "'", KEY40[:39], KEY40 + "Z"]:
         add("key_shape", key=k, server="status", status=503, body="")
         add("key_shape_connect", key=k, server="status", status=503, body="", via="connect")
+        # every verdict the processor has a diagnostic of its own for (seeded/C14f2: the invalid-license branch)
+        for st in (401, 410, 409):
+            add("key_shape_connect_%d" % st, key=k, server="status", status=st, body="", via="connect")
     return scs
 
 
